@@ -26,7 +26,14 @@ PROGRAMS = {
     'blocked_on_lock': "import threading\nl = threading.Lock()\nl.acquire()\nl.acquire()\n",
     'exit_code_in_finally': "try:\n    while True:\n        pass\nfinally:\n    raise SystemExit(1)\n",
     'recursive_calls': "def f(n):\n    return 0 if n == 0 else 1 + f(n - 1)\nwhile True:\n    f(50)\n",
+    # a bare `except:` swallows the request to stop once; the program then runs to its end (or fails, or prints) while
+    # the grader has long moved on - the next execution waits for the abandoned worker to finish (see one())
+    'swallow_then_finish': "try:\n    while True:\n        pass\nexcept BaseException:\n    pass\nn = 0\nwhile n < 4000000:\n    n += 1\n",
+    'swallow_then_fail': "try:\n    while True:\n        pass\nexcept BaseException:\n    pass\nn = 0\nwhile n < 4000000:\n    n += 1\nraise ValueError('late')\n",
+    'swallow_then_print': "try:\n    while True:\n        pass\nexcept BaseException:\n    pass\nn = 0\nwhile n < 4000000:\n    n += 1\nprint('late')\n",
 }
+# programs whose abandoned worker ends by itself while the next execution is still running
+ENDS_DURING_NEXT = {'swallow_then_finish', 'swallow_then_fail', 'swallow_then_print'}
 # programs that can never see the injected SystemExit: the worker thread stays alive for ever
 NEVER_DIES = {'swallowing_loop', 'blocked_on_lock'}
 SCHEDULES = ['natural', 'W<G', 'G<W<N', 'G<N<W', 'G<N|W']
@@ -129,6 +136,9 @@ def one(program, schedule):
         sb.threaded = False
         release = d.release_worker
         sb.data['__release'] = (lambda: (release.set(), _SLEEP(0.2))) if schedule == 'G<N|W' else (lambda: None)
+        if program in ENDS_DURING_NEXT and d.worker is not None:
+            worker = d.worker
+            sb.data['__release'] = lambda: (release.set(), worker.join(5))
         out_before = list(sb.output)
         sb.run("print('second-1')\n__release()\nprint('second-2')\nmarker = 41 + 1\n", filename='instructor_next.py')
         if schedule == 'G<N<W':
@@ -196,10 +206,12 @@ def bounded(arg):
             evaluations += 1
             distinct.add((program, schedule))
             for what, detail in bad:
-                failures.append({'id': what, 'canon': '%s under %s in %s' % (what, schedule, program),
+                # (the hook points are not reached by a program that swallows the interruption: one canon for all orderings)
+                failures.append({'id': what, 'canon': ('%s in %s' % (what, program)) if program in ENDS_DURING_NEXT
+                                 else '%s under %s in %s' % (what, schedule, program),
                                  'detail': '%s | program %s, ordering %s' % (detail, program, schedule)})
     return {'name': 'B-timeout-schedules', 'bound': '%d programs (busy loop, printing loop, loop swallowing BaseException, blocked on a '
-            'lock, cleanup that turns the interruption into exit(1), deep recursion) x %d forced orderings of the waiting thread and the abandoned worker at the hook points '
+            'lock, cleanup that turns the interruption into exit(1), deep recursion, three programs that swallow the interruption once and then finish / fail / print while the next execution runs) x %d forced orderings of the waiting thread and the abandoned worker at the hook points '
             '(natural, W<G, G<W<N, G<N<W, G<N|W), limit %.1f s, %d repetitions; real threads' % (
                 len(PROGRAMS), len(SCHEDULES), LIMIT, repeats),
             'evaluations': evaluations, 'distinct_nontrivial': len(distinct), 'rule': 'distinct = (program, ordering)',
